@@ -42,7 +42,7 @@ fn main() {
                 gv::faults::replay(&v, prop)
             } else {
                 let case: Case = serde_json::from_value(v.get("case").cloned().unwrap_or(v.clone())).expect("case");
-                let out = runner::replay(&case, thorough);
+                let out = runner::replay(&case, thorough, Some(prop));
                 match out.fail {
                     Some(f) => json!({"failed": true, "tags": f.tags.iter().map(|t| t.name()).collect::<Vec<_>>(), "owns": f.has(prop), "describe": f.describe(), "signature": f.signature()}),
                     None => json!({"failed": false, "ops": out.ops_done}),
